@@ -83,3 +83,18 @@ impl Oracle {
         }
     }
 }
+
+/// command line of every vh_cXX binary:  vh_cXX <seed> <quick|thorough> <outdir> [extra...]
+pub struct Args { pub seed: u64, pub thorough: bool, pub out: String, pub extra: Vec<String> }
+impl Args {
+    pub fn parse() -> Args {
+        let args: Vec<String> = std::env::args().collect();
+        if args.len() < 4 {
+            eprintln!("usage: {} <seed> <quick|thorough> <outdir> [extra...]", args[0]);
+            std::process::exit(2);
+        }
+        // panics inside the implementation are observations, not noise on stderr
+        std::panic::set_hook(Box::new(|_| {}));
+        Args { seed: args[1].parse().unwrap_or(1), thorough: args[2] == "thorough", out: args[3].clone(), extra: args[4..].to_vec() }
+    }
+}
